@@ -367,7 +367,7 @@ Qed.
 
 Lemma step_InvL s o : InvL s -> InvL (fst (step s o)).
 Proof.
-  intros HL. destruct o as [c sh|c ab|c|c i|c|w|w p|w|n|w'|nc|sf|ra|af]; cbn [step].
+  intros HL. destruct o as [c sh|c ab|c|c i|c|w|w p|w|n|w'|nc|sf|ra|af|]; cbn [step].
   - (* Scope *)
     destruct (ph (calls s c)) eqn:Ep; cbn [fst]; try exact HL.
     unfold InvL, set_calls. cbn [lb lq calls]. apply L_upd_same; [| |exact HL]; unfold holds, waitq; cbn; now rewrite Ep.
@@ -452,6 +452,7 @@ Proof.
   - (* ArmSpawnFail *)
     destruct (ph (calls s af)) eqn:Ep; cbn [fst]; try exact HL.
     unfold InvL, set_calls. cbn [lb lq calls]. apply L_upd_same; [| |exact HL]; unfold holds, waitq; cbn; now rewrite Ep.
+  - (* LoopEnd *) exact HL.
 Qed.
 
 (* ------------------------------------------------------------------------------------------------ *)
@@ -487,7 +488,7 @@ Qed.
 Lemma step_lb_bound s o :
   length (lb (fst (step s o))) <= Nat.max (length (lb s)) (total (fst (step s o))).
 Proof.
-  destruct o as [c sh|c ab|c|c i|c|w|w p|w|n|w'|nc|sf|ra|af]; cbn [step].
+  destruct o as [c sh|c ab|c|c i|c|w|w p|w|n|w'|nc|sf|ra|af|]; cbn [step].
   - destruct (ph (calls s c)); cbn; lia.
   - destruct (ph (calls s c)); cbn; lia.
   - destruct (ph (calls s c)) as [| | | |w|o|r]; cbn [fst]; try lia.
@@ -521,6 +522,7 @@ Proof.
   - destruct (can_spawn _ _); cbn [fst]; [apply setph_release_len|lia].
   - destruct (wk s ra); cbn; lia.
   - destruct (ph (calls s af)); cbn; lia.
+  - cbn. lia.
 Qed.
 
 Lemma step_total s o :
@@ -528,7 +530,7 @@ Lemma step_total s o :
              lowered (fst (step s o)) = orb (lowered s) (Nat.ltb n (total s))) \/
   (total (fst (step s o)) = total s /\ lowered (fst (step s o)) = lowered s).
 Proof.
-  destruct o as [c sh|c ab|c|c i|c|w|w p|w|n|w'|nc|sf|ra|af]; cbn [step]; [right|right|right|right|right|right|right|right|left|right|right|right|right|right].
+  destruct o as [c sh|c ab|c|c i|c|w|w p|w|n|w'|nc|sf|ra|af|]; cbn [step]; [right|right|right|right|right|right|right|right|left|right|right|right|right|right|right].
   - destruct (ph (calls s c)); cbn; tauto.
   - destruct (ph (calls s c)); cbn; tauto.
   - destruct (ph (calls s c)) as [| | | |w|o|r]; cbn [fst]; try tauto.
@@ -553,6 +555,7 @@ Proof.
   - destruct (can_spawn _ _); cbn [fst]; [apply setph_release_total|tauto].
   - destruct (wk s ra); cbn; tauto.
   - destruct (ph (calls s af)); cbn; tauto.
+  - cbn. tauto.
 Qed.
 
 Definition InvC (s : st) : Prop := lowered s = false -> length (lb s) <= total s.
@@ -848,7 +851,7 @@ Qed.
 Lemma start_skip_W s w c X :
   (forall d, hasb X d = false) -> (forall d, X <> WExec d) ->
   W s -> wk s w = WQueued c -> fut (calls s c) = FCancelled ->
-  W (mk (total s) (lb s) (lq s) (prune s) (idle s) (nwork s) (upd (wk s) w X) (calls s) (exec s) (lowered s)).
+  W (mk (total s) (lb s) (lq s) (prune s) (idle s) (nwork s) (upd (wk s) w X) (calls s) (exec s) (lowered s) (ended s)).
 Proof.
   intros HX HXe HW Ewk Ef. destruct HW as [H1 H2 H3 H4 H5 H6 H7 H8].
   assert (Hlt : w < nwork s).
@@ -876,7 +879,7 @@ Qed.
 
 Lemma step_W s o : W s -> W (fst (step s o)).
 Proof.
-  intros HW. destruct o as [c sh|c ab|c|c i|c|w|w p|w|n|w'|nc|sf|ra|af]; cbn [step].
+  intros HW. destruct o as [c sh|c ab|c|c i|c|w|w p|w|n|w'|nc|sf|ra|af|]; cbn [step].
   - (* Scope *)
     destruct (ph (calls s c)) eqn:Ep; cbn [fst]; try exact HW.
     pose proof (W_call _ _ _ _ _ HW c) as Hc. unfold callok in Hc. rewrite Ep in Hc. destruct Hc as (A & B & C).
@@ -1078,6 +1081,7 @@ Proof.
     pose proof (W_call _ _ _ _ _ HW af) as Hc. unfold callok in Hc. rewrite Ep in Hc. destruct Hc as (A & B & C).
     unfold W, set_calls. cbn [wk idle nwork exec calls]. apply Wp_upd_call; [exact HW| |now apply nohas_hasok].
     unfold callok. cbn. rewrite ?Ep. auto.
+  - (* LoopEnd *) exact HW.
 Qed.
 
 (* ------------------------------------------------------------------------------------------------ *)
@@ -1177,7 +1181,7 @@ Theorem rs_no_grant_while_full tot pr s o :
 Proof.
   intros R. split; [pose proof (step_lb_bound s o); lia|].
   destruct (reach_inv _ _ _ R) as (HL & _ & _). destruct HL as (Hn & _).
-  destruct o as [c sh|c ab|c|c i|c|w|w p|w|n|w'|nc|sf|ra|af]; cbn [step].
+  destruct o as [c sh|c ab|c|c i|c|w|w p|w|n|w'|nc|sf|ra|af|]; cbn [step].
   - destruct (ph (calls s c)); cbn; intros _; apply incl_refl.
   - destruct (ph (calls s c)); cbn; intros _; apply incl_refl.
   - destruct (ph (calls s c)) as [| | | |w|o|r]; cbn [fst]; try (intros _; apply incl_refl).
@@ -1208,6 +1212,7 @@ Proof.
   - destruct (can_spawn _ _); cbn [fst]; [now apply setph_release_incl|intros _; apply incl_refl].
   - destruct (wk s ra); cbn; intros _; apply incl_refl.
   - destruct (ph (calls s af)); cbn; intros _; apply incl_refl.
+  - cbn. intros _. apply incl_refl.
 Qed.
 
 (* the literal reading "total <= |lb| -> incl lb' lb" is false: at exactly full a release hands the token over *)
@@ -1316,7 +1321,7 @@ Lemma fin_written_by_finish s o c p :
   fin (calls (fst (step s o)) c) = Some p ->
   fin (calls s c) = Some p \/ exists w, o = ThreadFinish w p /\ wk s w = WExec c.
 Proof.
-  destruct o as [d sh|d ab|d|d i|d|w|w q|w|n|w'|nc|sf|ra|af]; cbn [step].
+  destruct o as [d sh|d ab|d|d i|d|w|w q|w|n|w'|nc|sf|ra|af|]; cbn [step].
   - destruct (ph (calls s d)); cbn [fst]; auto. cbn. unfold upd. destruct (Nat.eqb_spec c d) as [->|]; auto.
   - destruct (ph (calls s d)); cbn [fst]; auto. cbn. unfold upd. destruct (Nat.eqb_spec c d) as [->|]; auto. discriminate.
   - assert (Hrel : forall s0 x, fin (calls (release s0 x) c) = fin (calls s0 c)).
@@ -1359,6 +1364,7 @@ Proof.
   - destruct (can_spawn _ _); cbn [fst]; auto. rewrite fin_set_ph, fin_release. auto.
   - destruct (wk s ra); cbn; auto.
   - destruct (ph (calls s af)); cbn [fst]; auto. cbn. unfold upd. destruct (Nat.eqb_spec c af) as [->|]; auto.
+  - cbn. auto.
 Qed.
 
 (* ------------------------------------------------------------------------------------------------ *)
@@ -1408,7 +1414,7 @@ Lemma step_keeps_phase s o c :
   o <> Resume c -> (o = SpawnFail c -> can_spawn s (calls s c) = false) -> ph (calls s c) <> PNone ->
   ph (calls (fst (step s o)) c) = ph (calls s c) /\ abandon (calls (fst (step s o)) c) = abandon (calls s c).
 Proof.
-  intros Ho Hsf Hp. destruct o as [d sh|d ab|d|d i|d|w|w q|w|n|w'|nc|sf|ra|af]; cbn [step].
+  intros Ho Hsf Hp. destruct o as [d sh|d ab|d|d i|d|w|w q|w|n|w'|nc|sf|ra|af|]; cbn [step].
   - destruct (Nat.eq_dec c d) as [<-|Hne].
     + destruct (ph (calls s c)) eqn:E; cbn [fst]; tauto.
     + destruct (ph (calls s d)); cbn [fst]; try tauto. cbn. rewrite upd_other by exact Hne. tauto.
@@ -1448,6 +1454,7 @@ Proof.
     + rewrite set_ph_other by exact Hne. destruct (release_core s sf c) as (-> & _ & -> & _). tauto.
   - destruct (wk s ra); cbn; tauto.
   - destruct (ph (calls s af)) eqn:E; cbn [fst]; try tauto. cbn. unfold upd. destruct (Nat.eqb_spec c af) as [->|]; cbn; tauto.
+  - cbn. tauto.
 Qed.
 
 (* the ghost `ncr` is set by a native cancellation that hits the caller inside the call scope, by nothing else *)
@@ -1470,7 +1477,7 @@ Lemma ncr_set_by_native s o c :
   ncr (calls (fst (step s o)) c) = true ->
   ncr (calls s c) = true \/ (o = NativeCancel c /\ inside (calls s c) = true).
 Proof.
-  destruct o as [d sh|d ab|d|d i|d|w|w q|w|n|w'|nc|sf|ra|af]; cbn [step].
+  destruct o as [d sh|d ab|d|d i|d|w|w q|w|n|w'|nc|sf|ra|af|]; cbn [step].
   - destruct (ph (calls s d)); cbn [fst]; auto. cbn. unfold upd. destruct (Nat.eqb_spec c d) as [->|]; auto.
   - destruct (ph (calls s d)); cbn [fst]; auto. cbn. unfold upd. destruct (Nat.eqb_spec c d) as [->|]; auto. discriminate.
   - assert (Hent : ncr (calls (enter_scope s d) c) = ncr (calls s c)).
@@ -1510,6 +1517,7 @@ Proof.
   - destruct (can_spawn _ _); cbn [fst]; auto. rewrite ncr_set_ph, ncr_release. auto.
   - destruct (wk s ra); cbn; auto.
   - destruct (ph (calls s af)); cbn [fst]; auto. cbn. unfold upd. destruct (Nat.eqb_spec c af) as [->|]; auto.
+  - cbn. auto.
 Qed.
 
 (* 5. without abandon_on_cancel the caller is not interrupted between the start of the call scope and the report -
@@ -1708,7 +1716,7 @@ Proof.
     + intros Ei. unfold enter_scope. destruct (idle s); [contradiction|reflexivity].
   - intros o w c H1 H0.
     assert (Hnot : wk (fst (step s o)) w <> wk s w) by congruence.
-    destruct o as [d sh|d ab|d|d i|d|x|x q|x|n|x'|nc|sf|ra|af]; cbn [step] in *.
+    destruct o as [d sh|d ab|d|d i|d|x|x q|x|n|x'|nc|sf|ra|af|]; cbn [step] in *.
     + exfalso. apply Hnot. destruct (ph (calls s d)); reflexivity.
     + exfalso. apply Hnot. destruct (ph (calls s d)); reflexivity.
     + destruct (resume_wk s d) as [[E _]|[E _]].
@@ -1738,6 +1746,7 @@ Proof.
       destruct (setph_release_fields s sf (PPostCk OSpawn)) as (-> & _). reflexivity.
     + exfalso. apply Hnot. destruct (wk s ra); reflexivity.
     + exfalso. apply Hnot. destruct (ph (calls s af)); reflexivity.
+    + exfalso. apply Hnot. reflexivity.
   - intros w Hw. now apply (W_idle _ _ _ _ _ HW).
 Qed.
 
@@ -1747,7 +1756,7 @@ Qed.
 Lemma lost_forever s o w : W s -> wk s w = WLost -> wk (fst (step s o)) w = WLost.
 Proof.
   intros HW Hl.
-  destruct o as [d sh|d ab|d|d i|d|x|x q|x|n|x'|nc|sf|ra|af]; cbn [step].
+  destruct o as [d sh|d ab|d|d i|d|x|x q|x|n|x'|nc|sf|ra|af|]; cbn [step].
   - destruct (ph (calls s d)); exact Hl.
   - destruct (ph (calls s d)); exact Hl.
   - destruct (resume_wk s d) as [[E _]|[E _]]; cbn [step] in E; rewrite E; [exact Hl|].
@@ -1770,6 +1779,7 @@ Proof.
     destruct (setph_release_fields s sf (PPostCk OSpawn)) as (-> & _). exact Hl.
   - destruct (wk s ra); exact Hl.
   - destruct (ph (calls s af)); exact Hl.
+  - exact Hl.
 Qed.
 
 (* ---- the pinned tree ---- *)
@@ -1780,7 +1790,7 @@ Lemma step_pinned_cases s o :
   step_pinned s o = step s o \/
   exists w c, o = ThreadStart w /\ wk s w = WQueued c /\ fut (calls s c) = FCancelled /\
     step_pinned s o =
-    (mk (total s) (lb s) (lq s) (prune s) (idle s) (nwork s) (upd (wk s) w WLost) (calls s) (exec s) (lowered s), RNone).
+    (mk (total s) (lb s) (lq s) (prune s) (idle s) (nwork s) (upd (wk s) w WLost) (calls s) (exec s) (lowered s) (ended s), RNone).
 Proof.
   destruct o; try (left; reflexivity). cbn [step_pinned].
   destruct (wk s w) as [|c|c| | |] eqn:Ew; try (left; reflexivity).
@@ -1854,7 +1864,7 @@ Proof. intros E1 E2 E3 [A B]. unfold Pool. rewrite E1, E2, E3. auto. Qed.
 
 Lemma step_Pool s o : W s -> Pool s -> Pool (fst (step s o)).
 Proof.
-  intros HW HP. destruct o as [d sh|d ab|d|d i|d|x|x q|x|n|x'|nc|sf|ra|af]; cbn [step].
+  intros HW HP. destruct o as [d sh|d ab|d|d i|d|x|x q|x|n|x'|nc|sf|ra|af|]; cbn [step].
   - destruct (ph (calls s d)); exact HP.
   - destruct (ph (calls s d)); exact HP.
   - destruct (resume_wk s d) as [(E1 & E2 & E3)|[E _]]; cbn [step] in *.
@@ -1877,7 +1887,7 @@ Proof.
   - destruct HP as [A B]. destruct (wk s x) as [|c|c| | |] eqn:Ex; try (split; assumption).
     assert (G : forall X, X <> WLost -> X <> WFree ->
               Pool (mk (total s) (lb s) (lq s) (prune s) (idle s) (nwork s) (upd (wk s) x X) (calls s)
-                       (match X with WExec _ => c :: exec s | _ => exec s end) (lowered s))).
+                       (match X with WExec _ => c :: exec s | _ => exec s end) (lowered s) (ended s))).
     { intros X X1 X2. split; cbn [wk idle nwork].
       - intros y. unfold upd. destruct (Nat.eqb_spec y x); [exact X1|apply A].
       - intros y Hlt. unfold upd. destruct (Nat.eqb_spec y x); [congruence|now apply B]. }
@@ -1900,6 +1910,7 @@ Proof.
     destruct (setph_release_fields s sf (PPostCk OSpawn)) as (E1 & E2 & E3). eapply Pool_same; eauto.
   - destruct (wk s ra); exact HP.
   - destruct (ph (calls s af)); exact HP.
+  - exact HP.
 Qed.
 
 Lemma reach_Pool tot pr s : reach tot pr s -> Pool s.
@@ -2083,7 +2094,7 @@ Proof. intros R. apply settle_reach. now apply do_op_reach. Qed.
       and is cancelled iff that scope or one of its VISIBLE ancestors is cancelled.  A scope that has been exited no
       longer has visible ancestors (fix 1940035 / F42). *)
 Theorem from_thread_run_spec s w c :
-  wk s w = WExec c ->
+  wk s w = WExec c -> ended s = false ->
   step s (ThreadRunAsync w) = (s, RRT (walk (handed_visible (calls s c)))) /\
   (* while the caller is inside the call scope the answer is that of check_cancelled: the caller's enclosing scopes *)
   (inside (calls s c) = true -> walk (handed_visible (calls s c)) = walk (chain (calls s c))) /\
@@ -2093,13 +2104,86 @@ Theorem from_thread_run_spec s w c :
   (abandon (calls s c) = false -> inside (calls s c) = false ->
      walk (handed_visible (calls s c)) = match chain (calls s c) with (cc, _) :: _ => cc | [] => false end).
 Proof.
-  intros Ew. cbn [step]. rewrite Ew. split; [reflexivity|].
+  intros Ew Ee. cbn [step]. rewrite Ew, Ee. split; [reflexivity|].
   unfold handed_visible. refine (conj _ (conj _ _)).
   - intros ->. apply walk_handed.
   - intros Ea ->. unfold handed. rewrite Ea. reflexivity.
   - intros Ea ->. unfold handed. rewrite Ea. cbn. destruct (chain (calls s c)) as [|[cc sh] r]; cbn; [reflexivity|].
     destruct cc; [reflexivity|]. destruct sh; reflexivity.
 Qed.
+
+(* F51 (KNOWN finding, predicate from_thread_landed_after_loop_end): the hypothesis `ended s = false` is necessary.  After
+   the loop's last iteration a thread that its caller abandoned (abandon_on_cancel=True, caller cancelled and gone) is
+   still executing; its from_thread.run()/run_sync() hands the call over to a loop that will never run it: the thread
+   waits for ever, it gets neither a value nor RunFinishedError. *)
+Definition loop_end_ops : list op := ex_abandon ++ [LoopEnd].
+
+Theorem rs_from_thread_landed_after_loop_end_refuted :
+  exists ops, let s := final step (init 1 false) ops in
+    no_land_after_loop_end false (ops ++ [ThreadRunAsync 0]) = false /\
+    ended s = true /\ wk s 0 = WExec 0 /\ exec s = [0] /\
+    abandon (calls s 0) = true /\ ph (calls s 0) = PDone DCancelled /\ lb s = [] /\
+    step s (ThreadRunAsync 0) = (s, RHang) /\
+    (* before the loop ended the very same call would have been served (and not cancelled) *)
+    snd (step (final step (init 1 false) ex_abandon) (ThreadRunAsync 0)) = RRT false.
+Proof. exists loop_end_ops. vm_compute. repeat split; reflexivity. Qed.
+
+(* the boolean restriction is what the positive theorem needs: in a run that satisfies it, every from_thread.run() is
+   issued while `ended = false` (ended is set by LoopEnd only) *)
+Lemma ended_only_by_loop_end s o : o <> LoopEnd -> ended (fst (step s o)) = ended s.
+Proof.
+  assert (Hr : forall s0 c p0, ended (set_ph (release s0 c) c p0) = ended s0).
+  { intros s0 c p0. unfold set_ph, set_calls, release, notify. cbn [ended lq set_lim]. destruct (lq s0); [reflexivity|].
+    destruct (Nat.ltb _ _); reflexivity. }
+  assert (He : forall c, ended (enter_scope s c) = ended s).
+  { intros c. unfold enter_scope. destruct (idle s); reflexivity. }
+  assert (Hd : forall s0 c, ended (deliver s0 c) = ended s0).
+  { intros s0 c. unfold deliver. destruct (ph _); try reflexivity.
+    - destruct (orb _ _); reflexivity.
+    - destruct (abandon _); [|reflexivity]. destruct (fut _); reflexivity. }
+  intros Ho. destruct o as [c sh|c ab|c|c i|c|w|w p|w|n|w'|nc|sf|ra|af|]; cbn [step].
+  - destruct (ph (calls s c)); reflexivity.
+  - destruct (ph (calls s c)); reflexivity.
+  - destruct (ph (calls s c)) as [| | | |w|o|r]; cbn [fst]; try reflexivity.
+    + destruct (walk _); cbn [fst]; [reflexivity|]. destruct (orb _ _); reflexivity.
+    + destruct (wcanc _); cbn [fst].
+      * destruct (evset _); [|reflexivity]. apply (Hr (set_lim s (lb s) (remove_c c (lq s)))).
+      * destruct (evset _); cbn [fst]; [apply He|reflexivity].
+    + destruct (wcanc _); cbn [fst]; [apply Hr|apply He].
+    + destruct (fut _) as [|o|]; cbn [fst]; [reflexivity| |apply Hr]. destruct (wcanc _); [|destruct o]; cbn [fst]; apply Hr.
+  - destruct (Nat.ltb _ _); cbn [fst]; [|reflexivity]. destruct (walk _); [rewrite Hd|]; reflexivity.
+  - destruct (walk _); cbn [fst]; [apply Hd|reflexivity].
+  - destruct (wk s w); cbn [fst]; try reflexivity. destruct (fut _); reflexivity.
+  - destruct (wk s w); reflexivity.
+  - destruct (wk s w); reflexivity.
+  - destruct (grant_loop n (lq s) (lb s) (calls s)) as [[q b] cs]. reflexivity.
+  - destruct (wk s w'); reflexivity.
+  - destruct (native_cancel _); reflexivity.
+  - destruct (can_spawn _ _); cbn [fst]; [apply Hr|reflexivity].
+  - destruct (wk s ra); reflexivity.
+  - destruct (ph (calls s af)); reflexivity.
+  - congruence.
+Qed.
+
+Theorem rs_from_thread_run_served ops : forall s w,
+  no_land_after_loop_end (ended s) (ops ++ [ThreadRunAsync w]) = true ->
+  ended (final step s ops) = false.
+Proof.
+  induction ops as [|o r IH]; intros s w Hb.
+  - cbn in *. apply andb_true_iff in Hb. destruct Hb as [Hb _]. now apply negb_true_iff in Hb.
+  - cbn [final fold_left app]. apply (IH (fst (step s o)) w).
+    assert (Hne : forall o0, o0 <> LoopEnd -> no_land_after_loop_end (ended s) (r ++ [ThreadRunAsync w]) = true ->
+                  no_land_after_loop_end (ended (fst (step s o0))) (r ++ [ThreadRunAsync w]) = true).
+    { intros o0 H0 H1. now rewrite ended_only_by_loop_end. }
+    destruct o; cbn [app no_land_after_loop_end] in Hb; try (apply Hne; [discriminate|exact Hb]).
+    + apply andb_true_iff in Hb. destruct Hb as [_ Hb]. apply Hne; [discriminate|exact Hb].
+    + exact Hb.
+Qed.
+
+Example ex_no_land_after_loop_end :
+  no_land_after_loop_end false (ex_abandon ++ [ThreadRunAsync 0; ThreadFinish 0 (PVal 1); LoopEnd]) = true /\
+  snd (step (final step (init 1 false) ex_abandon) (ThreadRunAsync 0)) = RRT false.
+Proof. vm_compute. auto. Qed.
 
 (* ---- non-vacuity / witnesses for the new ops ---- *)
 
@@ -2172,7 +2256,7 @@ Proof. intros R. apply (rs_running_le_total tot pr s R). Qed.
 (* non-vacuity with content (QA audit 2) *)
 
 (* rs_nonabandon_running_le_total, hypothesis AND content: total = 1; call 0 (abandon_on_cancel=True) is cancelled by AnyIO
-   while its function runs and leaves (abandoned, still executing); call 1 (abandon_on_cancel=False) is then admitted and
+   while its function runs and leaves (abandoned, still executing); call 1 (abandon_on_cancel=False) is then let in and
    its function executes.  No native cancellation anywhere.  At the end a non-abandon function IS executing and the bound
    is tight: running_nonabandon = [1], borrowed = total = 1 - while 2 functions execute in all. *)
 Definition tight_ops : list op :=
@@ -2198,9 +2282,9 @@ Example ex_nonabandon_bound_tight_shielded :
 Proof. vm_compute. repeat split; auto. Qed.
 
 (* rs_no_grant_while_full, conjunct 2 (total' < |lb|): total 2, two functions run, a third caller queues; the total is
-   lowered to 1 (over-full: 2 borrowers); the first function finishes and its caller releases: nobody new is admitted
+   lowered to 1 (over-full: 2 borrowers); the first function finishes and its caller releases: nobody new is let in
    although a caller is waiting - lb' = [1] is included in lb = [1; 0]; only after the second release (no longer
-   over-full) is the waiter admitted *)
+   over-full) is the waiter let in *)
 Definition overfull_ops : list op :=
   [Call 0 false; Resume 0; Resume 0; ThreadStart 0; Call 1 false; Resume 1; Resume 1; ThreadStart 1;
    Call 2 false; Resume 2; SetTotal 1; ThreadFinish 0 (PVal 0)].
@@ -2209,7 +2293,7 @@ Example ex_no_grant_while_overfull :
   total s = 1 /\ lb s = [1; 0] /\ lq s = [2] /\ total (fst (step s (Resume 0))) < length (lb s) /\
   let s1 := fst (step s (Resume 0)) in
   lb s1 = [1] /\ lq s1 = [2] /\ evset (calls s1 2) = false /\ ph (calls s1 0) = PPostCk (OVal 0) /\
-  (* SetTotal itself, while over-full, admits nobody either *)
+  (* SetTotal itself, while over-full, lets nobody in either *)
   lb (final step (init 2 false) [Call 0 false; Resume 0; Resume 0; ThreadStart 0; Call 1 false; Resume 1; Resume 1;
                                  ThreadStart 1; Call 2 false; Resume 2; SetTotal 1]) = [1; 0] /\
   (* once drained to the new total the hand-over works again *)
